@@ -19,6 +19,42 @@ class C03(ExecSide, SchedProp):
     model_targets = SchedProp.model_targets + ['Exec/Oracle.vo']
     trusted = SchedProp.trusted + [ExecSide.exec_trusted]
     impl_timeout = 1500
+
+    # GPU shares that are no multiples of 1/64 (0.1, 0.2, 1/3, ...): the model counts shares in 1/64 and cannot
+    # follow their placement, but what C03 says about the map does not depend on amounts: the clauses are
+    # evaluated on the implementation's own events and snapshots, the correspondence bit is not judged
+    FLOAT_SHARES = [0.1, 0.2, 0.3, 1.0 / 3, 0.7, 0.15]
+
+    def cases(self, rng, tier):
+        for c in super().cases(rng, tier):
+            yield c
+        import copy
+        from . import schedlib as SL
+        n = 60 if tier == 'quick' else 2500
+        for _ in range(n):
+            c = SL.gen_case(rng, size='small', preplaced=False, disciplined=True)
+            c['cfg']['gpn'] = max(1, c['cfg']['gpn'])
+            for nd in c['nodes']:
+                if not nd['gpus']:
+                    nd['gpus'] = [0] * c['cfg']['gpn']
+            hit = False
+            for o in c['ops']:
+                if o[0] == 'arrive':
+                    for r in o[1]:
+                        if r['gpr'] < 64 and r.get('slots') is None and rng.random() < 0.7:
+                            r['gpr_f'] = rng.choice(self.FLOAT_SHARES)
+                            r['gpr'] = max(1, round(r['gpr_f'] * 64))
+                            hit = True
+            if hit:
+                c['float_shares'] = True
+                c['ops'] = c['ops'] + [['unsched', list(range(1, 200))], ['iter'], ['iter']]
+                yield c
+
+    def coq_row(self, case, obs):
+        row = super().coq_row(case, obs)
+        if not self.is_exec(case) and case.get('float_shares'):
+            row = '(true :: tl %s)' % row
+        return row
     rule = ('random scheduler histories as for C01, most of them ending with the release of every started task; '
             'non-trivial = >= 2 tasks held simultaneously and >= 1 task waited; ' + ExecSide.exec_rule)
 
